@@ -184,13 +184,17 @@ Definition add_port (s : state) (k : portkind) (o : nat) (n : name) (w : nat) : 
     let s := set_oinout s (upd (oinout s) o (match k with PInOut => oinout s o ++ [q] | _ => oinout s o end)) in
     (set_nport s (S q), Ok).
 
-(* Wire.rename / reparent / reparentAndRename (after /repo commit a702577):
-     if <new name> in <new parent>._wires: raise      (tested FIRST: nothing has been changed; note that this also
-                                                       raises when the wire is moved onto its own current slot)
+(* Wire.rename / reparent / reparentAndRename (after /repo commits a702577 + 0cca5f4):
+     if <new name> in <new parent>._wires and <new parent>._wires[<new name>] is not self: raise
+                                                      (tested FIRST: nothing has been changed; moving a wire onto
+                                                       its OWN slot is not a collision)
      del self.parent._wires[self.name]                (KeyError if that key is absent)
      self.name = newname ; self.parent = newparent
      newparent.appendWire(self)                       (its duplicate test is still executed; Proofs/C11/Conflict.v
-                                                       shows it can no longer fire) *)
+                                                       shows it cannot fire in a constructed netlist) *)
+Definition holds_other (t : tbl) (n : name) (w : nat) : bool :=
+  match tget t n with Some w' => negb (Nat.eqb w' w) | None => false end.
+
 Definition move (s : state) (w : nat) (np : option nat) (nn : option name) : state * outcome :=
   if negb (w <? nwire s) then (s, BadRef)
   else
@@ -199,7 +203,7 @@ Definition move (s : state) (w : nat) (np : option nat) (nn : option name) : sta
     let p' := match np with Some x => x | None => p end in
     let n' := match nn with Some x => x | None => n end in
     if negb (p' <? nobj s) then (s, BadRef)
-    else if tmem (owires s p') n' then (s, Raise (CWire p' n'))
+    else if holds_other (owires s p') n' w then (s, Raise (CWire p' n'))
     else if negb (tmem (owires s p) n) then (s, Raise (CKey p n))
     else
       let s1 := set_owires s (upd (owires s) p (tdel (owires s p) n)) in
